@@ -224,4 +224,66 @@ theorem sequences_spec (h : Params) (bs : Bytes) (seqs : List Seq) (hs : sequenc
   rw [reset_new]
   simpa using h2
 
+theorem definedFiles_decodeAll (h : Params) (fuel : Nat) : ∀ (input : Bytes) (prog : List Instr),
+    decodeAll h fuel input = .ok prog → Line.definedFiles h fuel input = Spec.Line.definedFiles prog := by
+  induction fuel with
+  | zero => intro input prog hd; simp [decodeAll] at hd
+  | succ fuel ih =>
+    intro input prog hd
+    rw [decodeAll] at hd
+    rw [Line.definedFiles]
+    split at hd
+    · rename_i he
+      simp only [Out.ok.injEq] at hd
+      subst hd
+      simp [he, Spec.Line.definedFiles]
+    · rename_i he
+      simp only [he]
+      cases hp : parseInstr h input with
+      | ok p =>
+        obtain ⟨ins, rest⟩ := p
+        rw [hp] at hd
+        simp only at hd
+        cases hr : decodeAll h fuel rest with
+        | ok is =>
+          rw [hr] at hd
+          simp only [Out.ok.injEq] at hd
+          subst hd
+          have := ih rest is hr
+          cases ins <;> simp [Spec.Line.definedFiles, this]
+        | err e => rw [hr] at hd; simp at hd
+        | panic w => rw [hr] at hd; simp at hd
+        | diverge => rw [hr] at hd; simp at hd
+      | err e => rw [hp] at hd; simp at hd
+      | panic w => rw [hp] at hd; simp at hd
+      | diverge => rw [hp] at hd; simp at hd
+
+theorem noHiddenEnd_map_row (rs : List Row) : NoHiddenEnd (rs.map Ev.row) := by
+  induction rs with
+  | nil => simp [NoHiddenEnd]
+  | cons r rs ih => simp [NoHiddenEnd, ih]
+
+
+theorem monoObserved_last (size : Nat) (rows : List Row) (last : Row) : ∀ lo,
+    (∀ r ∈ rows, r.endSequence = false) →
+    MonoObserved size lo (rows.map Ev.row ++ [Ev.row last]) →
+    lo ≤ last.address ∧ ∀ r ∈ rows, r.address ≤ last.address := by
+  induction rows with
+  | nil =>
+    intro lo _ h
+    simp only [List.map_nil, List.nil_append, MonoObserved] at h
+    exact ⟨h.1, by simp⟩
+  | cons r rs ih =>
+    intro lo hne h
+    simp only [List.map_cons, List.cons_append, MonoObserved] at h
+    have hr := hne r List.mem_cons_self
+    rw [hr] at h
+    simp only [Bool.false_eq_true, ↓reduceIte] at h
+    obtain ⟨h1, h2⟩ := ih r.address (fun x hx => hne x (List.mem_cons_of_mem _ hx)) h.2.2
+    refine ⟨by omega, fun x hx => ?_⟩
+    rcases List.mem_cons.mp hx with rfl | hx
+    · exact h1
+    · exact h2 x hx
+
+
 end Gimli.Line
